@@ -32,7 +32,6 @@ import (
 	mockstatesinformer "github.com/koordinator-sh/koordinator/pkg/koordlet/statesinformer/mockstatesinformer"
 	koordletutil "github.com/koordinator-sh/koordinator/pkg/koordlet/util"
 	"github.com/koordinator-sh/koordinator/pkg/koordlet/util/system"
-	"github.com/koordinator-sh/koordinator/pkg/util/cpuset"
 )
 
 // C10 harness.  Four kinds of cases, each calling the REAL code:
@@ -145,7 +144,20 @@ func c10SetStr(cpus []int, style int) string {
 	sort.Ints(s)
 	switch style {
 	case 0:
-		return cpuset.NewCPUSet(s...).String()
+		var parts []string
+		for i := 0; i < len(s); {
+			j := i
+			for j+1 < len(s) && s[j+1] <= s[j]+1 {
+				j++
+			}
+			if s[j] > s[i] {
+				parts = append(parts, fmt.Sprintf("%d-%d", s[i], s[j]))
+			} else {
+				parts = append(parts, strconv.Itoa(s[i]))
+			}
+			i = j + 1
+		}
+		return strings.Join(parts, ",")
 	case 1:
 		ss := make([]string, len(s))
 		for i, c := range s {
@@ -1147,6 +1159,20 @@ func c10ParseCPUList(s string) (cpus []int, ok bool) {
 	return cpus, true
 }
 
+// c10ParseFile: a cpuset.cpus content read back with the harness's own cpu-list grammar (not the repo's cpuset.Parse,
+// so a change of that function cannot hide itself from the oracle).
+type c10Set []int
+
+func (s c10Set) ToSlice() []int { return []int(s) }
+
+func c10ParseFile(raw string) (c10Set, error) {
+	cpus, ok := c10ParseCPUList(strings.Trim(raw, "\n"))
+	if !ok {
+		return nil, fmt.Errorf("not a cpu list: %q", raw)
+	}
+	return c10Set(cpus), nil
+}
+
 // c10OwnProtected: the CPUs the NodeResourceTopology annotations protect, by the statement: the union of every
 // WELL-FORMED source.  A source that cannot be read (JSON or cpu list) protects nothing and says nothing about the other.
 func c10OwnProtected(anno map[string]string) (reserved, sysExcl []int) {
@@ -1659,7 +1685,7 @@ func c10RunCPUSet(t *testing.T, h *vHarness, r *vRand, cg *c10Cgroup, beDir stri
 	}
 	readSet := func(dir, tag string) ([]int, string, bool) {
 		raw := cg.read(t, dir, system.CPUSet)
-		set, err := cpuset.Parse(strings.Trim(raw, "\n"))
+		set, err := c10ParseFile(raw)
 		if err != nil {
 			h.Obs("%s unparsable", tag)
 			h.Fail("C10:cpuset-unparsable", "cpuset.cpus content %q in %s", raw, dir)
